@@ -3,7 +3,7 @@
   association lists, `pickFields`, and the class that `type(name, (Structure,), dict)` yields for
   the dict an operator assembles.
 -/
-import TypedpyModel.Lemmas.World
+import TypedpyModel.Lemmas.DefineWorld
 import TypedpyModel.Spec.FieldSet
 namespace Typedpy
 
